@@ -23,6 +23,12 @@ Kind "sim": the REAL `Arbiter` (harness/sim.py: simulated kernel, harness as sch
 that refer to real sockets; every `Popen` call is photographed as above; the model is then driven with
 the observed sequence of spawns (trace validation) and must predict argv, close_fds and the inherited
 descriptors of each of them.
+
+Kind "cfg": the REAL `Arbiter.load_from_config` (harness/reloadsim.py) with `[socket:NAME]` sections (unix paths in
+the scratch directory, inet on 127.0.0.x), `reloadconfig` after every rewrite of the file (changed, deleted,
+added socket sections), restarts, deaths, `quit`; compared with `Circus.Sockets.reloadSockets` / `step .stop`
+up to descriptor numbers: dict, descriptors, unix-socket FILES in the directory, argv / close_fds / inherited
+sockets / descriptor 0 of every spawn.
 """
 import os
 import random
@@ -38,31 +44,41 @@ from harness.core import enc_cps, dec_cps, Infra
 
 LEAN_PROPS = ["CircusProofs/Props/C07.lean"]
 LEAN_LEMMAS = ["CircusProofs/Lemmas/Sockets.lean"]
-RULE = ("cases = (1-4 sockets inet/unix, some so_reuseport (inet), names in mixed letter case, sometimes two "
-        "names differing only by case; 1-4 watchers, some with use_sockets, cmd/args (none, string, list) with "
-        "0-3 $(circus.sockets.NAME) / ((circus.sockets.NAME)) references in random letter case, some to "
-        "missing sockets, 0-2 captured output pipes; history of 5-40 ops over initialize / spawn / death / "
-        "restart / reload / incr / decr / open+close of unrelated (inheritable or not) files / stop, so that "
-        "several worker generations are spawned while descriptor numbers of pipes and files move around); "
-        "kind sim = real Arbiter commands on the simulated kernel; kind live (thorough) = real forked "
-        "children reporting their descriptor table; every random choice from VERIF_SEED; non-trivial = a "
-        "use_sockets worker of a second or later generation was handed a managed socket while an unrelated "
-        "descriptor number had been reused; distinct by hash")
+RULE = ("cases = (1-4 sockets inet/unix, stream / seqpacket / datagram as far as the kernel's socket() accepts the "
+        "combination, some so_reuseport (inet), some replace (unix), names in mixed letter case, sometimes two "
+        "names differing only by case; 1-4 watchers, some with use_sockets, some with stdin_socket (an existing "
+        "socket, rarely a missing one or another letter case; regularly stdin_socket WITHOUT use_sockets), "
+        "cmd/args (none, string, list) with 0-3 $(circus.sockets.NAME) / ((circus.sockets.NAME)) references in "
+        "random letter case, some to missing sockets, 0-2 captured output pipes; history of 5-40 ops over "
+        "initialize / spawn / death / restart / reload / incr / decr / open+close of unrelated (inheritable or "
+        "not) files / stop, so that several worker generations are spawned while descriptor numbers of pipes and "
+        "files move around); kind sim = real Arbiter commands on the simulated kernel; kind cfg = real Arbiter "
+        "from a configuration file, reloadconfig after rewrites of the [socket:] sections (changed path / "
+        "backlog / type, deleted, added, two sockets on one path, replace), quit; kind live (thorough) = real "
+        "forked children reporting their descriptor table, descriptor 0 included; every random choice from "
+        "VERIF_SEED; non-trivial = a use_sockets worker of a second or later generation was handed a managed "
+        "socket while an unrelated descriptor number had been reused (cfg: a reload really changed the dict); "
+        "distinct by hash")
 ASSUMPTIONS = [
-    "sockets are SOCK_STREAM; bind/listen succeed on a fresh socket (loopback, port 0 or a port reserved by the "
-    "harness; unix paths in a private scratch directory); replace=False; so_reuseport only on inet sockets",
+    "bind/listen succeed on a fresh socket whose unix path is free (loopback, port 0 or a port reserved by the "
+    "harness; unix paths in a private scratch directory); so_reuseport only on inet sockets; socket types: "
+    "SOCK_STREAM, SOCK_SEQPACKET, SOCK_DGRAM (SOCK_RAW / SOCK_RDM need privileges / are not supported here)",
     "cmd/args refer to no circus.* key other than circus.sockets.* (general substitution is C13); shell=False; "
-    "stdin_socket=None; no hooks; uid/gid/rlimits unset",
-    "what a child inherits is computed from close_fds and os.get_inheritable by the rule of PEP 446 "
-    "(checked against real forked children by the `live` cases); stdio (0..2) is outside the view",
+    "no hooks; uid/gid/rlimits unset; close_child_stdin is the default",
+    "what a child inherits is computed from close_fds, pass_fds and os.get_inheritable by the rule of PEP 446, what "
+    "it has on descriptor 0 from the dup2 calls preexec_fn makes when the harness runs it with a recording `os` "
+    "(both checked against real forked children by the `live` cases, as is `Popen raises SubprocessError when "
+    "preexec_fn fails`); descriptors 1, 2 are outside the view",
     "descriptor numbers: lowest free number (POSIX); the harness process holds nothing at or above BASE "
-    "besides what the code under test opens",
+    "besides what the code under test opens (cfg cases are compared up to descriptor numbers)",
     "restart / reload / incr / decr are the sequences of spawn_process / reaping that Watcher._restart, "
     "_reload(graceful), set_numprocesses -> manage_processes perform (hist: played by the harness with the real "
-    "spawn_process / reap_process; sim: the real coroutines); sockets added/removed by reloadconfig are outside "
-    "the quantifier of C07",
+    "spawn_process / reap_process; sim, cfg: the real coroutines)",
+    "C07's theorems about one socket for the whole life of the daemon exclude histories with a reloadconfig that "
+    "changes socket sections (NoReload); those histories are covered by the C08 theorems and by no-leak; the "
+    "iteration order of the Python sets in reload_from_config is a parameter (the harness reproduces it)",
     "the per-worker so_reuseport socket is released when Popen returns because CPython drops the last "
-    "reference (`self._sockets = []`)",
+    "reference (`self._sockets = []`); a socket whose bind failed in a reload when its traceback is collected",
 ]
 TRUSTED_EXTRA = ["recording Popen, descriptor photographs and the BASE filler of harness/props/c07.py; "
                  "harness/sim.py for the `sim` cases"]
@@ -281,6 +297,83 @@ def gen_sim(rng):
     return {"kind": "sim", "sockets": socks, "watchers": ws, "acts": acts}
 
 
+_CFG_NAMES = ["web", "adm", "api", "q", "x-1"]
+
+
+def _cfg_sock(rng, name, used_addrs):
+    sup = _supported()
+    unix = rng.random() < 0.7
+    typ = rng.choice(["stream", "stream", "seqpacket", "dgram"])
+    if (unix, typ) not in sup:
+        typ = "stream"
+    if used_addrs and rng.random() < 0.25:
+        addr = rng.choice(sorted(used_addrs))            # a path / host another socket uses or used
+    else:
+        addr = rng.randrange(1, 9)
+    used_addrs.add(addr)
+    return {"name": name, "unix": unix, "reuseport": False, "type": typ, "addr": addr,
+            "replace": unix and rng.random() < 0.35, "opts": rng.choice([0, 0, 1])}
+
+
+def gen_cfg(rng):
+    """the real Arbiter from a configuration file; reloadconfig with changed / added / deleted socket sections"""
+    used = set()
+    names = rng.sample(_CFG_NAMES, rng.choice([1, 2, 2, 3]))
+    cur = [_cfg_sock(rng, n, used) for n in names]
+    # no two sockets of the first version on the same path: circusd would not start
+    seen = set()
+    for k in cur:
+        while (k["unix"], k["addr"]) in seen:
+            k["addr"] = rng.randrange(1, 9)
+        seen.add((k["unix"], k["addr"]))
+        used.add(k["addr"])
+    versions = [[dict(k) for k in cur]]
+    for _ in range(rng.choice([1, 1, 2, 3])):
+        nxt = []
+        for k in cur:
+            r = rng.random()
+            if r < 0.2:
+                continue                                     # deleted
+            k = dict(k)
+            if r < 0.45:
+                k["addr"] = rng.choice(sorted(used)) if rng.random() < 0.3 else rng.randrange(1, 9)   # path changed
+                used.add(k["addr"])
+            elif r < 0.55:
+                k["opts"] = 1 - k["opts"]                    # backlog changed
+            elif r < 0.62 and (k["unix"], "seqpacket") in _supported():
+                k["type"] = "seqpacket" if k["type"] != "seqpacket" else "stream"
+            nxt.append(k)
+        free = [n for n in _CFG_NAMES if n not in [k["name"] for k in nxt]]
+        if free and rng.random() < 0.45:
+            nxt.append(_cfg_sock(rng, rng.choice(free), used))
+        if not nxt:
+            nxt.append(_cfg_sock(rng, rng.choice(_CFG_NAMES), used))
+        versions.append([dict(k) for k in nxt])
+        cur = nxt
+    all_names = sorted(set(k["name"] for v in versions for k in v))
+    ws = []
+    for i in range(rng.choice([1, 2])):
+        refs = rng.sample(all_names, min(len(all_names), rng.choice([0, 1, 1, 2])))
+        in_cmd = rng.random() < 0.5
+        toks = ["$(circus.sockets.%s)" % (_rcase(rng, n) if rng.random() < 0.3 else n) for n in refs]
+        ws.append({"use_sockets": rng.random() < 0.7,
+                   "cmd": " ".join(["prog"] + (toks if in_cmd else [])),
+                   "args": " ".join(["run"] + ([] if in_cmd else toks)),
+                   "np": rng.choice([1, 1, 2]), "pipe_out": False, "pipe_err": False, "max_retry": 2,
+                   "stdin": (rng.choice(versions[0])["name"] if rng.random() < 0.2 else None)})
+    acts = []
+    for v in range(1, len(versions)):
+        if rng.random() < 0.4:
+            acts.append(rng.choice([["restart"], ["die", rng.randrange(4)]]))
+        acts.append(["reload", v])
+        if rng.random() < 0.4:
+            acts.append(rng.choice([["restart"], ["die", rng.randrange(4)]]))
+    if rng.random() < 0.85:
+        acts.append(["quit"])
+    return {"kind": "cfg", "versions": versions, "watchers": ws, "acts": acts}
+
+
+
 def gen_live(rng):
     socks = _gen_sockets(rng)
     while len(set(s["name"].lower() for s in socks)) < len(socks):      # the live part is about inheritance
@@ -314,9 +407,10 @@ def gen_live(rng):
 
 
 def generate(rng, tier):
-    n_hist, n_sim, n_live = (260, 40, 0) if tier == "quick" else (6000, 500, 4)
+    n_hist, n_sim, n_cfg, n_live = (250, 40, 40, 0) if tier == "quick" else (5500, 500, 500, 4)
     out = [gen_hist(rng) for _ in range(n_hist)]
     out += [gen_sim(rng) for _ in range(n_sim)]
+    out += [gen_cfg(rng) for _ in range(n_cfg)]
     out += [gen_live(rng) for _ in range(n_live)]
     return out
 
@@ -955,6 +1049,185 @@ def _impl_sim(case):
         env.close()
 
 
+# --------------------------------------------------------------------------- cfg: reloadconfig on the real Arbiter
+
+def _cfg_ini(case, version, d):
+    from harness import reloadsim as RS
+    t = RS.HEAD
+    for k in sorted(case["versions"][version], key=lambda k: k["name"]):
+        t += "[socket:%s]\n" % k["name"]
+        if k["unix"]:
+            t += "path = %s/s%d.sock\n" % (d, k["addr"])
+        else:
+            t += "host = 127.0.0.%d\nport = 0\n" % (k["addr"] + 1)
+        t += "type = %s\nbacklog = %d\n" % (_TYPE_NAME[k["type"]], 100 + k["opts"])
+        if k["replace"]:
+            t += "replace = True\n"
+        t += "\n"
+    for i, w in enumerate(case["watchers"]):
+        t += "[watcher:w%d]\ncmd = %s\nargs = %s\nnumprocesses = %d\nwarmup_delay = 0\n" % (i, w["cmd"], w["args"], w["np"])
+        t += "use_sockets = %s\nmax_retry = %d\ngraceful_timeout = 0.3\n" % (w["use_sockets"], w["max_retry"])
+        if w.get("stdin") is not None:
+            t += "stdin_socket = %s\n" % w["stdin"]
+        t += "\n"
+    return t
+
+
+def _impl_cfg(case):
+    import subprocess
+    import circus.process as cp
+    import circus.watcher as W
+    from circus.config import get_config
+    from harness import reloadsim as RS
+    env = _Env({"sockets": []})
+    calls = []
+    try:
+        env.fill()
+        path = os.path.join(env.dir, "circus.ini")
+        with open(path, "w") as fh:
+            fh.write(_cfg_ini(case, 0, env.dir))
+        sim = RS.ReloadSim(path)
+        steps = []
+        orders = []
+        sim.setup()
+        inner = cp.Popen
+        orig_spawn = W.Watcher.spawn_process
+        try:
+            arb = sim.arb
+            env.objects += list(arb.sockets.values())
+            infra = set(e[0] for e in env.photo()) - set(k.fileno() for k in arb.sockets.values())
+
+            def addr_of(k):
+                try:
+                    nm = k.getsockname()
+                except OSError:
+                    return None
+                if isinstance(nm, tuple):
+                    return (int(nm[0].split(".")[-1]) - 1) if nm[1] else None
+                if isinstance(nm, bytes):
+                    nm = nm.decode()
+                m = re.search(r"/s(\d+)\.sock$", nm or "")
+                return int(m.group(1)) if m else None
+
+            def describe(fd, photo):
+                e = [x for x in photo if x[0] == fd]
+                if not e:
+                    return None
+                s_ = socket.socket(fileno=fd)
+                try:
+                    a = addr_of(s_)
+                    ux = s_.family == socket.AF_UNIX
+                finally:
+                    s_.detach()
+                return [e[0][1], e[0][2], e[0][3], e[0][4], a, ux]
+
+            def popen(args, **kw):
+                ph = [e for e in env.photo() if e[0] not in infra]
+                src0, exc = _run_preexec(kw.get("preexec_fn"))
+                if exc is not None:
+                    raise subprocess.SubprocessError("Exception occurred in preexec_fn.")
+                name = None
+                for w in arb.watchers:
+                    if getattr(w, "_c07_spawning", False):
+                        name = w.name
+                fdmap = dict((k.fileno(), n) for n, k in arb.sockets.items() if k.fileno() >= 0)
+                inh = _inherit(ph, kw.get("close_fds"), kw.get("pass_fds"))
+                p = inner(args, **kw)
+                calls.append({"name": name, "argv": list(args), "close_fds": kw.get("close_fds"), "fdmap": fdmap,
+                              "inherited": [[fdmap.get(e[0]), e[1], e[2], e[3], describe(e[0], ph)[4]] for e in inh
+                                            if e[2] == "s"],
+                              "fd0": (None if src0 is None else [fdmap.get(src0)] + (describe(src0, ph) or [None] * 6)[:2])})
+                return p
+
+            def spawn_process(self_, *a, **k):
+                self_._c07_spawning = True
+                try:
+                    return orig_spawn(self_, *a, **k)
+                finally:
+                    self_._c07_spawning = False
+            cp.Popen = popen
+            W.Watcher.spawn_process = spawn_process
+
+            def snap(act, n, extra=None):
+                import gc
+                gc.collect()       # a socket object whose bind failed lives as long as the traceback of the OSError
+                ph = env.photo()
+                dict_fds = set(k.fileno() for k in arb.sockets.values() if k.fileno() >= 0)
+                st = {"act": act, "recs": [dict(c) for c in calls[n:]],
+                      "socks": [[nm, (describe(k.fileno(), ph) if k.fileno() >= 0 else None)]
+                                for nm, k in arb.sockets.items()],
+                      "files": env.files(),
+                      "orphans": [e[:3] for e in ph if e[2] == "s" and e[0] not in infra and e[0] not in dict_fds],
+                      "blocked": bool(sim.blocked), "errors": [str(x)[:160] for x in sim.errors[-2:]]}
+                if extra:
+                    st.update(extra)
+                steps.append(st)
+
+            # Arbiter.initialize: "initialize sockets"
+            if len(arb.sockets) > 0:
+                arb.sockets.bind_and_listen_all()
+            snap(["init"], len(calls))
+            n = len(calls)
+            sim.start()
+            snap(["start"], n)
+            for act in case["acts"]:
+                if sim.blocked:
+                    break
+                n = len(calls)
+                sim.raised[:] = []
+                sim.errors[:] = []
+                extra = None
+                if act[0] == "reload":
+                    with open(path, "w") as fh:
+                        fh.write(_cfg_ini(case, act[1], env.dir))
+                    # the iteration order of the Python sets, by the same set operations in the same process
+                    new_sockets = dict((i["name"], i.copy()) for i in get_config(path).get("sockets", []))
+                    current_sn = set([i.name for i in arb.sockets.values()]) - set(["circushttpd"])
+                    new_sn = set(new_sockets.keys())
+                    added_sn = new_sn - current_sn
+                    deleted_sn = current_sn - new_sn
+                    maybechanged_sn = current_sn - deleted_sn
+                    for nm in maybechanged_sn:
+                        if new_sockets[nm] != arb.get_socket(nm)._cfg:
+                            deleted_sn.add(nm)
+                            added_sn.add(nm)
+                    extra = {"dorder": list(deleted_sn), "aorder": list(added_sn)}
+                    before = set(id(k) for k in arb.sockets.values())
+                    sim.reload()
+                    env.objects += [k for k in arb.sockets.values() if id(k) not in before]
+                elif act[0] == "restart":
+                    sim.k.log = []
+                    sim.apply(["req", {"command": "restart", "id": "x", "properties": {"name": "w0", "waiting": False}}])
+                    sim.quiesce()
+                elif act[0] == "die":
+                    pids = sorted(p for p, pr in sim.k.procs.items() if pr.state == "r" and pr.ppid == 0)
+                    if pids:
+                        sim.k.log = []
+                        sim.apply(["die", pids[act[1] % len(pids)], 0])
+                        sim.check()
+                elif act[0] == "quit":
+                    sim.k.log = []
+                    sim.apply(["req", {"command": "quit", "id": "q", "properties": {"waiting": False}}])
+                    sim.quiesce()
+                else:
+                    raise ValueError("unknown act %r" % (act,))
+                snap(act, n, extra)
+        finally:
+            cp.Popen = inner
+            W.Watcher.spawn_process = orig_spawn
+            try:
+                for k in list(sim.arb.sockets.values()):
+                    k.close()
+            except Exception:
+                pass
+            sim.teardown()
+        out = {"steps": steps, "base": env.base}
+        _SIM_CACHE[id(case)] = (out, env.base)
+        return out
+    finally:
+        env.close()
+
+
 # --------------------------------------------------------------------------- live: real children
 
 _CHILD = r"""
@@ -1102,6 +1375,8 @@ def impl_run(case):
         return _impl_hist(case)
     if k == "sim":
         return _impl_sim(case)
+    if k == "cfg":
+        return _impl_cfg(case)
     if k == "live":
         return _impl_live(case)
     raise ValueError("unknown kind %r" % k)
@@ -1144,6 +1419,8 @@ def impl_view(case, obs):
         return _canon_steps(obs["steps"])
     if k == "sim":
         return _sim_view(case, obs)
+    if k == "cfg":
+        return _cfg_impl_view(case, obs)
     return {"live": "no model comparison"}
 
 
@@ -1172,6 +1449,104 @@ def _sim_view(case, obs):
         out.append({"recs": recs, "table": [[e[0], rn(e[1]), e[2], e[3], e[4], e[5]] for e in st["table"]],
                     "socks": st["socks"]})
     return out
+
+
+_NUM = re.compile(r"\d+")
+
+
+def _canon_argv(argv, fdmap):
+    """descriptor numbers of dict sockets replaced by the socket names (the cfg view is free of numbers)"""
+    fm = dict((int(k), v) for k, v in fdmap.items())
+    return [_NUM.sub(lambda m: "<%s>" % fm[int(m.group(0))] if int(m.group(0)) in fm else m.group(0), a) for a in argv]
+
+
+def _cfg_canon(steps):
+    rn = _Renamer()
+    out = []
+    for st in steps:
+        socks = []
+        for nm, d in st["socks"]:
+            socks.append([nm, None if d is None else [rn(d[0]), d[1], d[2], d[3], d[4]]])
+        recs = []
+        for r in st["recs"]:
+            inh = sorted(r["inherited"], key=lambda e: (e[0] is None, str(e[0]), str(e[4]), e[3]))
+            recs.append({"w": r["w"], "close_fds": r["close_fds"], "argv": r["argv"],
+                         "inherited": [[e[0], rn(e[1]), e[2], e[3], e[4]] for e in inh],
+                         "fd0": None if r["fd0"] is None else [r["fd0"][0], rn(r["fd0"][1]), r["fd0"][2]]})
+        out.append({"socks": socks, "files": sorted(st["files"]), "orphans": len(st["orphans"]), "recs": recs})
+    return out
+
+
+def _cfg_impl_view(case, obs):
+    steps = []
+    for st in obs["steps"]:
+        recs = []
+        for r in st["recs"]:
+            recs.append({"w": int(r["name"][1:]) if r.get("name") else None, "close_fds": r["close_fds"],
+                         "argv": _canon_argv(r["argv"], r["fdmap"]), "inherited": r["inherited"], "fd0": r["fd0"]})
+        steps.append({"socks": [[nm, None if d is None else d[:5]] for nm, d in st["socks"]], "files": st["files"],
+                      "orphans": st["orphans"], "recs": recs})
+    return _cfg_canon(steps)
+
+
+def _cfg_specs(version):
+    return sorted(version, key=lambda k: k["name"])
+
+
+def _cfg_ops(case, obs):
+    """the model is driven with the reloads of the case and the spawns the real arbiter was seen to perform"""
+    ops = [["I"]]
+    groups = [1]                  # number of model ops per observed step
+    for st in obs["steps"][1:]:
+        n = 0
+        a = st["act"]
+        if a[0] == "reload":
+            specs = _cfg_specs(case["versions"][a[1]])
+            g = ["G", str(len(specs))]
+            for k in specs:
+                g += _enc_spec(k, 0)
+            g += [str(len(st["dorder"]))] + [enc_cps(x) for x in st["dorder"]]
+            g += [str(len(st["aorder"]))] + [enc_cps(x) for x in st["aorder"]]
+            ops.append(g)
+            n += 1
+        elif a[0] == "quit":
+            ops.append(["X"])
+            n += 1
+        for r in st["recs"]:
+            ops.append(["S", int(r["name"][1:]) if r.get("name") else 999])
+            n += 1
+        groups.append(n)
+    return ops, groups
+
+
+def _cfg_model_view(case, segs, groups):
+    steps = []
+    pos = 0
+    for g in groups:
+        recs = []
+        cur = None
+        for _ in range(g):
+            pos += 1
+            cur = segs[pos]
+            recs += cur["recs"]
+        if cur is None:
+            cur = segs[pos]
+        by_fd = dict((e[0], e) for e in cur["table"])
+        dict_fds = set(fd for _, fd in cur["socks"] if fd is not None)
+        socks = []
+        for nm, fd in cur["socks"]:
+            e = by_fd.get(fd)
+            socks.append([nm, None if e is None else [e[1], e[2], e[3], e[4], e[5]]])
+        rr = []
+        for r in recs:
+            fdmap = dict((fd, nm) for nm, fd in r["sockets_fds"] if fd is not None)
+            rr.append({"w": r["w"], "close_fds": r["close_fds"], "argv": _canon_argv(r["argv"], fdmap),
+                       "inherited": [[fdmap.get(e[0]), e[1], e[2], e[3], e[4]] for e in r["inherited"] if e[2] == "s"],
+                       "fd0": None if r["fd0"] is None else [case["watchers"][r["w"]].get("stdin"), r["fd0"][0], r["fd0"][1]]})
+        steps.append({"socks": socks, "files": cur["files"],
+                      "orphans": [e for e in cur["table"] if e[2] == "s" and e[0] not in dict_fds], "recs": rr})
+    return _cfg_canon(steps)
+
 
 
 def _enc_args(a):
@@ -1211,6 +1586,13 @@ def model_line(case):
     k = case["kind"]
     if k == "hist":
         return _line(case, case["watchers"], case["ops"], _RUN.get(id(case), BASE))
+    if k == "cfg":
+        obs, base = _SIM_CACHE.get(id(case), (None, None))
+        if obs is None:
+            return "sock run 0 0 0 0"
+        ops, _ = _cfg_ops(case, obs)
+        ws = [dict(w, pipe_out=False, pipe_err=False, np=2000, args=w["args"]) for w in case["watchers"]]
+        return _line({"sockets": _cfg_specs(case["versions"][0])}, ws, ops, BASE)
     if k == "sim":
         # trace validation: the model is driven with the spawns the real arbiter was seen to perform
         tr, base = _SIM_CACHE.get(id(case), (None, None))
@@ -1311,6 +1693,12 @@ def model_parse(case, line):
         return {"unparsable": "%s: %s" % (type(e).__name__, e), "line": line[:300]}
     if k == "hist":
         return _canon_steps(segs)
+    if k == "cfg":
+        obs, _ = _SIM_CACHE.get(id(case), (None, None))
+        if obs is None:
+            return {"cfg": "no trace"}
+        _, groups = _cfg_ops(case, obs)
+        return _cfg_model_view(case, segs, groups)
     # sim: regroup the model's per-spawn segments into the steps of the observation
     tr, _ = _SIM_CACHE.get(id(case), (None, None))
     if tr is None:
@@ -1587,6 +1975,35 @@ def oracle(case, obs):
                             _inherit(r["photo"], r["close_fds"], r.get("pass_fds"))))
             return out
         _oracle_steps(case, steps, recs_of, fails)
+    elif k == "cfg":
+        for n, st in enumerate(obs["steps"]):
+            where = "step %d (%s)" % (n, " ".join(str(x) for x in st["act"]))
+            # C08: nothing of a removed or replaced socket stays behind, at any moment
+            paths = set(d[4] for _, d in st["socks"] if d is not None and d[5])
+            left = [f for f in st["files"] if f not in paths]
+            if left:
+                fails.append(_fail("C08:unix-socket-file-left-behind",
+                                   "%s: the socket files %r exist but belong to no socket of the daemon's dict %r"
+                                   % (where, left, st["socks"])))
+            if st["orphans"]:
+                fails.append(_fail("C08:managed-socket-open-after-shutdown" if st["act"][0] == "quit" else
+                                   "C08:removed-socket-not-closed",
+                                   "%s: socket descriptors %r are open but belong to no socket of the dict"
+                                   % (where, st["orphans"])))
+            if st["act"][0] == "quit" and not st.get("blocked"):
+                if st["files"] or any(d is not None for _, d in st["socks"]):
+                    fails.append(_fail("C08:unix-socket-file-left-behind" if st["files"] else
+                                       "C08:managed-socket-open-after-shutdown",
+                                       "%s: after the shutdown files %r, dict %r" % (where, st["files"], st["socks"])))
+            # C07: a worker of a watcher without use_sockets inherits nothing above stdio, reload or not
+            for r in st["recs"]:
+                if r.get("name") is None:
+                    continue
+                w = case["watchers"][int(r["name"][1:])]
+                if not w["use_sockets"] and r["inherited"]:
+                    fails.append(_fail("C07:leak-without-use_sockets",
+                                       "%s: worker of %s (no use_sockets, stdin_socket=%r) would inherit %r"
+                                       % (where, r["name"], w.get("stdin"), r["inherited"])))
     elif k == "live":
         if "skipped" in obs:
             return []
@@ -1652,6 +2069,9 @@ def nontrivial(case, obs):
     if case["kind"] == "sim":
         n = sum(len(st["recs"]) for st in obs["steps"])
         return n > sum(w["np"] for w in case["watchers"])
+    if case["kind"] == "cfg":
+        # some socket was deleted, changed or added by a reload that really happened
+        return any(st.get("dorder") or st.get("aorder") for st in obs["steps"])
     gens = {}
     handed = False
     seen_fd = {}
@@ -1680,7 +2100,7 @@ def stats(cases, impl):
         if "harness_exception" in o:
             out["harness_exceptions"] = out.get("harness_exceptions", 0) + 1
             continue
-        names = [s["name"].lower() for s in c["sockets"]]
+        names = [s["name"].lower() for s in c.get("sockets", [])]
         if len(set(names)) < len(names):
             out["name_case_collisions"] += 1
         if c["kind"] == "live":
@@ -1691,6 +2111,18 @@ def stats(cases, impl):
             continue
         if o.get("leftover"):
             out.setdefault("window_moved_above", []).append(o["leftover"])
+        if c["kind"] == "cfg":
+            out.setdefault("cfg", {"reloads": 0, "deleted_or_changed": 0, "added": 0, "reload_errors": 0, "quits": 0})
+            for st in o["steps"]:
+                if st["act"][0] == "reload":
+                    out["cfg"]["reloads"] += 1
+                    out["cfg"]["deleted_or_changed"] += len(st.get("dorder") or [])
+                    out["cfg"]["added"] += len(st.get("aorder") or [])
+                    out["cfg"]["reload_errors"] += 1 if st.get("errors") else 0
+                if st["act"][0] == "quit":
+                    out["cfg"]["quits"] += 1
+                out["spawns"] += len(st["recs"])
+            continue
         if c["kind"] == "hist":
             for op in c["ops"]:
                 out["ops"][op[0]] = out["ops"].get(op[0], 0) + 1
